@@ -5230,6 +5230,9 @@ class RemoteBranch(branch.Branch, _RpcHelper, lock._RelockDebugMixin):
         too, in fact doing so might harm performance.
         """
         super()._clear_cached_state()
+        # The tags cache belongs to this RemoteBranch, not to _real_branch: the
+        # real branch is about to change the tags behind its back (e.g. pull).
+        self._tags_bytes = None
 
     @property
     def control_files(self):
